@@ -7,6 +7,7 @@ use crate::ctx::{Ctx, Monitors};
 pub mod e1;
 pub mod e2;
 pub mod e3;
+pub mod e4;
 pub mod e5;
 pub mod e6;
 
@@ -92,6 +93,16 @@ pub fn spec(prop: &str, tier: Tier) -> Option<PropSpec> {
             exhaustive: false,
             rule: RULE_E1,
         },
+        "C06" => PropSpec {
+            id: "C06",
+            level: "fault_enumeration",
+            batches: vec![
+                Batch { engine: "e4", profile: "debug", runs: if q { 6_000 } else { 200_000 } },
+                Batch { engine: "e4", profile: "release", runs: if q { 30_000 } else { 2_000_000 } },
+            ],
+            exhaustive: false,
+            rule: "one evaluation = one generated CIE/FDE program evaluated on unbounded storage and on the whole capacity ladder rows {1,2,3,4,5} x rules {1,2,4,191,192,193} (array and boxed storages), i.e. 31 executions of the real unwind code; the ladder is enumerated exhaustively per program, programs are seeded; non-trivial = the FDE parsed AND every ladder comparison ran to its end; distinct = distinct event-stream digests",
+        },
         "C07" => PropSpec {
             id: "C07",
             level: "exploration",
@@ -156,6 +167,7 @@ pub fn gen_case(engine: &str, prop: &str, tier: Tier, master: u64, i: u64) -> Ca
         "e1" => e1::gen_case(prop, tier, master, i),
         "e2" => e2::gen_case(tier, master, i),
         "e3" => e3::gen_case(tier, master, i),
+        "e4" => e4::gen_case(tier, master, i),
         "e5" => e5::gen_case(i),
         "e6" => e6::gen_case(tier, master, i),
         _ => panic!("unknown engine {}", engine),
@@ -168,6 +180,7 @@ pub fn dispatch(case: &Case, ctx: &mut Ctx<'_>) {
         "e1" => e1::run(case, ctx),
         "e2" => e2::run(case, ctx),
         "e3" => e3::run(case, ctx),
+        "e4" => e4::run(case, ctx),
         "e5" => e5::run(case, ctx),
         "e6" => e6::run(case, ctx),
         other => panic!("unknown engine {}", other),
